@@ -305,7 +305,9 @@ func (w *world) tokenLine(t tokDef) []byte {
 	if t.user != nil {
 		m["username"] = *t.user
 	}
-	if t.timeok {
+	if strings.Contains(t.name, "noexp") {
+		// no expiry at all: such a token is never valid
+	} else if t.timeok {
 		m["expires"] = w.future
 	} else {
 		m["expires"] = w.past
